@@ -2,8 +2,16 @@
 
 Inductive argument per writer: the relation fields are written only inside the owner set (own); every owner validates
 the guard table before its first write (guards); both ends of every link are written (mirror); the closure helpers used
-by the guards walk the raw links (closure); list facades only permute (facades); the two dependency setters agree
-(sibling).  Sufficiency of the guard set is the hand argument in DESIGN.md, not mechanised.
+by the guards walk the raw links (closure); list facades only permute (facades) and move() cannot fail between remove and
+re-insert (move_cannot_lose_a_task: the anchor checks, as implications over the guard formulas); the two dependency setters
+agree (sibling).  Sufficiency of the guard set is the hand argument in DESIGN.md, not mechanised.
+
+Shapes (round 3): the dependency helper is read as a set of exists-chains (loops, any(), nested generators, isdisjoint, either
+nesting order, several loops) over list values resolved into parts (`[x] + list(y)`, `[x, *y]`, literal + extend/append/+=,
+accumulate loops); closure helpers as nested generator, self-recursive list builder or while loop; mirror updates through alias
+locals.  "Expected construct not found" is UNDECIDED unless the function visibly does nothing of the kind (closed world).
+Not decided: explicit-stack closure walkers, sort() replacing the list by something that is not sorted()/reversed() of it,
+an in-place list.sort() counts as a permutation (its atomicity is C15.sort_works_on_a_copy).
 """
 from __future__ import annotations
 
@@ -261,7 +269,11 @@ class _Parts:
         if d.kind == 'aug' and isinstance(d.stmt.op, ast.Add) and d.node is not at:
             prev = self._name(e, d.node, depth + 1)
             inc = self.parts(d.stmt.value, d.node, depth + 1)
-            if prev is None or inc is None or self.cfg.enclosing_fors(d.node) != self.cfg.enclosing_fors(at):
+            pd = self.fl.reaching(name, d.node)
+            # the increment runs once after the previous definition: same loops, same conditions
+            if prev is None or inc is None or len(pd) != 1 or pd[0].node is None or \
+                    self.cfg.enclosing_fors(d.node) != self.cfg.enclosing_fors(pd[0].node) or \
+                    [id(t) for t, p in self.cfg.conditions(d.node)] != [id(t) for t, p in self.cfg.conditions(pd[0].node)]:
                 return None
             return prev + inc
         if d.kind != 'assign' or d.value is None or d.node is None or d.node is at:
@@ -282,8 +294,23 @@ class _Parts:
                 muts.append((mn, n))
         muts.sort(key=lambda x: getattr(x[1], 'lineno', 0))
         for mn, n in muts:
-            same_ctx = [id(t) for t, p in self.cfg.conditions(mn)] == [id(t) for t, p in self.cfg.conditions(d.node)] and \
-                self.cfg.enclosing_fors(mn) == self.cfg.enclosing_fors(d.node)
+            same_conds = [id(t) for t, p in self.cfg.conditions(mn)] == [id(t) for t, p in self.cfg.conditions(d.node)]
+            fors_m, fors_d = self.cfg.enclosing_fors(mn), self.cfg.enclosing_fors(d.node)
+            # `for v in X: name.append(v)` (unconditional, one loop deeper than the definition, finished before the use)
+            if same_conds and len(fors_m) == len(fors_d) + 1 and fors_m[:len(fors_d)] == fors_d and n.func.attr == 'append' and \
+                    len(n.args) == 1 and not n.keywords:
+                lp = fors_m[-1]
+                hdr = self.cfg.node_of(lp)
+                if isinstance(lp.target, ast.Name) and isinstance(n.args[0], ast.Name) and n.args[0].id == lp.target.id and \
+                        hdr is not None and self.cfg.dominates(hdr, at) and at is not mn and not self.cfg.can_reach(at, hdr) and \
+                        not any(isinstance(x, (ast.Break, ast.Continue, ast.Return, ast.Raise)) for b in lp.body for x in ast.walk(b)):
+                    p = self.parts(lp.iter, hdr, depth + 1)
+                    if p is None:
+                        return None
+                    out = out + p
+                    continue
+                return None
+            same_ctx = same_conds and fors_m == fors_d
             if not same_ctx or not self.cfg.dominates(mn, at) or n.keywords:
                 return None
             if n.func.attr == 'extend' and len(n.args) == 1:
@@ -388,7 +415,9 @@ def _exists_chains(ctx, f):
             # judged on its own (another chain / an early False)
             holder = next((n for n in walk_no_nested(f.node) if isinstance(n, (ast.If, ast.While)) and n.test is t), None)
             if holder is not None and not any(x is r for x in ast.walk(holder)):
-                continue
+                branch = holder.body if not p else holder.orelse        # the branch that was NOT taken on the way to r
+                if branch and isinstance(branch[-1], (ast.Return, ast.Raise)):
+                    continue
             unfold(ch, t, p, cfg.node_containing(t))
         for t, p in extra:
             unfold(ch, t, p, rn)
@@ -427,6 +456,11 @@ def dep_helper(ctx, o):
         extras |= triples - required
         loop_hdrs.append(hdr)
     missing = required - covered
+    inv = [(ch, why) for ch, why in problems if why.startswith('INVERTED')]
+    if inv and missing:
+        o.refute(f, inv[0][0].node, 'inverted membership test', inv[0][1][10:] + ": a link with an ancestor of the new parent is accepted, "
+                                                                               "an unrelated link is rejected")
+        return
     if problems and missing:
         ch, why = problems[0]
         o.undecided(f, ch.node, f.name, f"a True answer of the helper is not understood: {why}")
@@ -454,9 +488,8 @@ def dep_helper(ctx, o):
     # an answer `False` before the scan was finished
     for r, extra in falses:
         rn = cfg.node_of(r)
-        early = [h for h in loop_hdrs if h is not None and h.kind == 'for' and not cfg.dominates(h, rn)]
-        before_expr = [h for h in loop_hdrs if h is not None and h.kind != 'for' and h is not rn and cfg.can_reach(rn, h) is False
-                       and not cfg.dominates(h, rn)]
+        early = [h for h in loop_hdrs if h is not None and h is not rn and not cfg.dominates(h, rn)]
+        before_expr = []
         if early or before_expr:
             conds = facts.node_conditions(prog, f, r, ctx.typer, expand=False) + [x for t, p in extra for x in facts.split_conj(t, p)]
             if conds and all(facts.cond_is(t, p, f"{b} is None", True) is not None for t, p in conds):
@@ -489,6 +522,8 @@ def _chain_triples(ctx, f, P, ch, a, b):
         if m and p2 and isinstance(m['x'], ast.Name) and m['x'].id in bvars and pair is None:
             pair = (m['x'].id, None, m['s'], at)
             continue
+        if m and not p2 and isinstance(m['x'], ast.Name) and m['x'].id in bvars and len(ch.tests) == 1:
+            return f"INVERTED: the helper answers True when `{src(t2)}` is FALSE"
         m = match("$x is $y", t2) or match("$x == $y", t2)
         if m and p2 and isinstance(m['x'], ast.Name) and isinstance(m['y'], ast.Name) and m['x'].id in bvars and m['y'].id in bvars \
                 and pair is None:
@@ -542,7 +577,8 @@ def _chain_triples(ctx, f, P, ch, a, b):
             cs.add(c)
         sets.append(cs)
     triples = {(x, y, z) for x in sets[0] for y in sets[1] for z in sets[2]}
-    return triples, T[1]
+    # the node at which this answer is decided: the outermost loop / the statement holding the any(..)
+    return triples, ch.binders[0][2]
 
 
 def _resolves_mention(P, side, name):
@@ -550,62 +586,202 @@ def _resolves_mention(P, side, name):
     return bool(ps) and any(any(isinstance(n, ast.Name) and n.id == name for n in ast.walk(pe)) for _, pe in ps)
 
 
-def closure(ctx, o):
+def _walk_form(ctx, f, raw, pub):
+    """how method f of Task enumerates the transitive closure of the relation `raw`.
+    -> ('ok', func, node, note) | ('bad', func, node, construct, msg) | ('unknown', func, node, msg)"""
     prog = ctx.prog
-    specs = [('task.Task.__get_all_children', 'get_children', '_Task__children', 'children'),
-             ('task.Task.__get_all_predecessors', 'get_predecessor', 'predecessors', 'predecessors'),
-             ('task.Task.__get_all_successors', 'get_successor', 'successors', 'successors')]
-    for q, nested, raw, pub in specs:
-        f = prog.func(q)
-        g = prog.funcs.get(q + '.' + nested)
-        if g is None:
-            cands = [x for x in prog.all_funcs() if x.parent is f]
-            g = cands[0] if cands else None
-        if g is None:
-            o.undecided(f, f.node, q, "closure helper without nested generator")
+    what = unmangle(f.name)
+    # walker candidates: functions nested in f, and module functions / static methods f calls with the task itself as first argument
+    # (further parameters bound to constants at that call, e.g. the name of the link attribute)
+    cands = [(g, {}, None) for g in prog.all_funcs() if g.parent is f]
+    for ci in ctx.cg.calls_in(f):
+        c = ci.node
+        if ci.kind != 'call' or not isinstance(c, ast.Call) or not c.args or not (isinstance(c.args[0], ast.Name) and c.args[0].id == f.self_name):
+            continue
+        for g in ci.targets:
+            if g is None or g is f or g.parent is f or not g.params or g.kind not in ('function', 'static'):
+                continue
+            consts = {}
+            for prm, arg in zip(g.params[1:], facts.bound_args(c, g, drop_self=False)[1:]):
+                if isinstance(arg, ast.Constant):
+                    consts[prm] = arg.value
+            cands.append((g, consts, c))
+    for g, consts, start_call in cands:
+        if not g.params:
             continue
         p = g.params[0]
-        loops = [n for n in walk_no_nested(g.node) if isinstance(n, ast.For)]
-        ok = False
-        for lp in loops:
-            if (match(f"{p}.{raw}", lp.iter) or match(f"{p}.{pub}", lp.iter)) and isinstance(lp.target, ast.Name):
-                v = lp.target.id
-                body = lp.body
-                y = [i for i, s in enumerate(body) if isinstance(s, ast.Expr) and isinstance(s.value, ast.Yield) and
-                     isinstance(s.value.value, ast.Name) and s.value.value.id == v]
-                r = [i for i, s in enumerate(body) if isinstance(s, ast.Expr) and isinstance(s.value, ast.YieldFrom) and
-                     match(f"{g.name}({v})", s.value.value)]
-                if y and r and y[0] < r[0] and len(body) == 2:
-                    ok = True
-                elif y and r and y[0] > r[0]:
-                    o.refute(g, lp, lp, "descendants are yielded before the task itself (not pre-order)")
-                    ok = None
-        if ok:
-            o.site(g, g.node, f"for x in t.{unmangle(raw)}: yield x; yield from rec(x)")
-        elif ok is False:
-            o.refute(g, g.node, q, f"{unmangle(q.split('.')[-1])} does not walk t.{unmangle(raw)} transitively (yield element, then recurse)")
-        # the public wrapper starts from self and (for dependencies) removes duplicates by identity
-        starts = [c for c in facts.calls_named(f, g.name) if c.args and isinstance(c.args[0], ast.Name) and c.args[0].id == f.self_name]
-        if not starts:
-            o.refute(f, f.node, q, "the closure does not start from the task itself")
+
+        def is_rec(call, v=None):
+            fn = call.func
+            nm = fn.id if isinstance(fn, ast.Name) else (unmangle(fn.attr) if isinstance(fn, ast.Attribute) else None)
+            if nm != unmangle(g.name) or not call.args:
+                return False
+            if v is not None and not (isinstance(call.args[0], ast.Name) and call.args[0].id == v):
+                return False
+            # constant parameters are passed on unchanged
+            for prm, arg in zip(g.params[1:], facts.bound_args(call, g, drop_self=False)[1:]):
+                if prm in consts and not (isinstance(arg, ast.Name) and arg.id == prm) and not \
+                        (isinstance(arg, ast.Constant) and arg.value == consts[prm]):
+                    return False
+            return True
+
+        def iter_ok(it):
+            if match(f"{p}.{raw}", it) or match(f"{p}.{pub}", it):
+                return True
+            m = match(f"getattr({p}, $n)", it)
+            if m:
+                n = m['n']
+                val = n.value if isinstance(n, ast.Constant) else (consts.get(n.id) if isinstance(n, ast.Name) else None)
+                return val in (pub, raw)
+            return False
+        rec_calls = [n for n in ast.walk(g.node) if isinstance(n, ast.Call) and is_rec(n)]
+        for lp in [n for n in walk_no_nested(g.node) if isinstance(n, ast.For)]:
+            if not (iter_ok(lp.iter) and isinstance(lp.target, ast.Name)):
+                continue
+            v = lp.target.id
+            body = [s for s in lp.body if not (isinstance(s, ast.Expr) and isinstance(s.value, ast.Constant))]
+            y = [i for i, s in enumerate(body) if isinstance(s, ast.Expr) and isinstance(s.value, ast.Yield) and
+                 isinstance(s.value.value, ast.Name) and s.value.value.id == v]
+            r = [i for i, s in enumerate(body) if isinstance(s, ast.Expr) and isinstance(s.value, ast.YieldFrom) and
+                 isinstance(s.value.value, ast.Call) and is_rec(s.value.value, v)]
+            if y and r and y[0] > r[0]:
+                return ('bad', g, lp, lp, "descendants are yielded before the task itself (not pre-order)")
+            if y and not rec_calls:
+                return ('bad', g, g.node, f.qual, f"{what} does not walk t.{unmangle(raw)} transitively (yield element, then recurse): only the "
+                                                  f"direct elements are returned")
+            if y and r and len(body) == 2:
+                if start_call is None:
+                    starts = [c for c in facts.calls_named(f, g.name) if c.args and isinstance(c.args[0], ast.Name) and c.args[0].id == f.self_name]
+                    if not starts:
+                        return ('bad', f, f.node, f.qual, "the closure does not start from the task itself")
+                return ('ok', g, g.node, f"for x in t.{unmangle(raw)}: yield x; yield from rec(x)")
+        if start_call is None:
+            return ('unknown', g, g.node, f"nested walker of {what} in an unrecognised form")
+    # direct recursion building a list:  for v in self.<raw>: acc.append(v); acc.extend(v.<same>())
+    s = f.self_name
+    self_calls = [n for n in ast.walk(f.node) if isinstance(n, ast.Call) and isinstance(n.func, ast.Attribute) and
+                  unmangle(n.func.attr) == unmangle(f.name)]
+    pub_all = {'children': 'all_children', 'predecessors': 'all_predecessors', 'successors': 'all_successors'}[pub]
+    for lp in [n for n in walk_no_nested(f.node) if isinstance(n, ast.For)]:
+        if not ((match(f"{s}.{raw}", lp.iter) or match(f"{s}.{pub}", lp.iter)) and isinstance(lp.target, ast.Name)):
+            continue
+        v = lp.target.id
+        ap, rc = [], []
+        for i, st in enumerate(lp.body):
+            m = match(f"$acc.append({v})", st.value) if isinstance(st, ast.Expr) else None
+            if m:
+                ap.append((i, src(m['acc'])))
+            x = None
+            if isinstance(st, ast.Expr):
+                m = match("$acc.extend($x)", st.value)
+                if m:
+                    x = (src(m['acc']), m['x'])
+            elif isinstance(st, ast.AugAssign) and isinstance(st.op, ast.Add):
+                x = (src(st.target), st.value)
+            if x is not None:
+                callee_ok = any(isinstance(n, ast.Call) and isinstance(n.func, ast.Attribute) and unmangle(n.func.attr) == unmangle(f.name)
+                                and isinstance(n.func.value, ast.Name) and n.func.value.id == v for n in ast.walk(x[1])) or \
+                    any(isinstance(n, ast.Attribute) and n.attr == pub_all and isinstance(n.value, ast.Name) and n.value.id == v
+                        for n in ast.walk(x[1]))
+                if callee_ok:
+                    rc.append((i, x[0]))
+        if ap and rc and ap[0][1] == rc[0][1]:
+            if ap[0][0] > rc[0][0]:
+                return ('bad', f, lp, lp, "descendants are collected before the task itself (not pre-order)")
+            if len(lp.body) == 2:
+                return ('ok', f, f.node, f"for x in self.{unmangle(raw)}: acc.append(x); acc.extend(x.{what}())")
+        if ap and not rc and not self_calls and not any(isinstance(n, ast.Attribute) and n.attr == pub_all for n in ast.walk(f.node)):
+            return ('bad', f, f.node, f.qual, f"{what} does not walk self.{unmangle(raw)} transitively: only the direct elements are collected")
+    return ('unknown', f, f.node, f"{what}: closure helper in an unrecognised form")
+
+
+def closure(ctx, o):
+    prog = ctx.prog
+    specs = [('task.Task.__get_all_children', '_Task__children', 'children'),
+             ('task.Task.__get_all_predecessors', 'predecessors', 'predecessors'),
+             ('task.Task.__get_all_successors', 'successors', 'successors')]
+    for q, raw, pub in specs:
+        f = prog.func(q)
+        r = _walk_form(ctx, f, raw, pub)
+        if r[0] == 'ok':
+            o.site(r[1], r[2], r[3])
+        elif r[0] == 'bad':
+            o.refute(r[1], r[2], r[3], r[4])
+        else:
+            o.undecided(r[1], r[2], q, r[3])
     # all_parents
     f = prog.func('task.Task.__get_all_parents')
     g = next((x for x in prog.all_funcs() if x.parent is f), None)
-    if g is None:
-        o.undecided(f, f.node, f.qual, "all_parents helper not recognised")
-    else:
+    s = f.self_name
+    done = False
+    if g is not None and g.params:
         p = g.params[0]
-        txt = ' '.join(src(s) for s in g.body)
         rec = any(match(f"{g.name}({p}.parent)", n) or match(f"{g.name}({p}._Task__parent)", n) for n in ast.walk(g.node))
+        any_rec = any(isinstance(n, ast.Call) and isinstance(n.func, ast.Name) and n.func.id == g.name for n in ast.walk(g.node))
         yld = any(isinstance(n, ast.Yield) and isinstance(n.value, ast.Name) and n.value.id == p for n in ast.walk(g.node))
-        start = any(match(f"{g.name}(self._Task__parent)", n) or match(f"{g.name}(self.parent)", n) for n in ast.walk(f.node))
+        start = any(match(f"{g.name}({s}._Task__parent)", n) or match(f"{g.name}({s}.parent)", n) for n in ast.walk(f.node))
         if rec and yld and start:
             o.site(g, g.node, "yield t; recurse on t.parent, starting at the task's parent")
-        else:
+            done = True
+        elif yld and not any_rec:
             o.refute(g, g.node, f.qual, "all_parents does not walk the whole parent chain starting at the direct parent")
+            done = True
+    if not done:
+        # iterative form:  cur = self.parent; while cur is not None [..]: acc.append(cur); cur = cur.parent
+        fl = flow_of(f)
+        for w in [n for n in walk_no_nested(f.node) if isinstance(n, ast.While)]:
+            for st in w.body:
+                m = match("$acc.append($x)", st.value) if isinstance(st, ast.Expr) else None
+                if not (m and isinstance(m['x'], ast.Name)):
+                    continue
+                x = m['x'].id
+                step = [a for a in w.body if isinstance(a, ast.Assign) and len(a.targets) == 1 and match(x, a.targets[0]) and
+                        (match(f"{x}.parent", a.value) or match(f"{x}._Task__parent", a.value))]
+                init = [d for d in fl.defs_of(x) if d.kind == 'assign' and d.value is not None and
+                        (match(f"{s}.parent", d.value) or match(f"{s}._Task__parent", d.value))]
+                tests_x = any(isinstance(n, ast.Name) and n.id == x for n in ast.walk(w.test))
+                if step and init and tests_x and w.body.index(st) < w.body.index(step[0]):
+                    o.site(f, w, "cur = self.parent; while cur: collect cur; cur = cur.parent")
+                    done = True
+        if not done:
+            loops = [n for n in ast.walk(f.node) if isinstance(n, (ast.While, ast.For, ast.FunctionDef, ast.ListComp, ast.GeneratorExp))
+                     and n is not f.node]
+            calls_self = any(isinstance(n, ast.Attribute) and unmangle(n.attr) in ('__get_all_parents', 'all_parents') for n in ast.walk(f.node))
+            if not loops and not calls_self:
+                o.refute(f, f.node, f.qual, "all_parents does not walk the whole parent chain starting at the direct parent (no loop, no recursion)")
+            else:
+                o.undecided(f, f.node, f.qual, "all_parents helper not recognised")
+    # the closures are recomputed from the links on every call: a result kept on the task goes stale as soon as the links of ANOTHER
+    # task change (the per-task invalidation cannot see that), and the guards then test a stale closure
+    for q in ('task.Task.__get_all_children', 'task.Task.__get_all_predecessors', 'task.Task.__get_all_successors',
+              'task.Task.__get_all_parents', 'task.Task.all_children', 'task.Task.all_predecessors', 'task.Task.all_successors',
+              'task.Task.all_parents'):
+        h = prog.funcs.get(q)
+        if h is None or not h.self_name:
+            continue
+        for n in walk_no_nested(h.node):
+            tg = n.targets if isinstance(n, ast.Assign) else ([n.target] if isinstance(n, (ast.AugAssign, ast.AnnAssign)) else [])
+            for t in tg:
+                if isinstance(t, ast.Attribute) and isinstance(t.value, ast.Name) and t.value.id == h.self_name:
+                    o.refute(h, n, n, f"{unmangle(h.name)} keeps its result on the task (`{src(t)}`): the memoised closure is not invalidated when "
+                                      f"the links of another task of the chain change, so the cycle / ancestor guards can work on a stale closure")
     u = prog.func('task._unique_tasks')
-    keyed_by_id = any(match("$t.id not in $m", n) or match("$m.add($t.id)", n) for n in ast.walk(u.node))
-    keyed_by_obj = any(match("id($t) not in $m", n) for n in ast.walk(u.node)) and any(match("$m.add(id($t))", n) for n in ast.walk(u.node))
+
+    def keyed(pred):
+        for n in ast.walk(u.node):
+            if isinstance(n, ast.Compare) and len(n.ops) == 1 and isinstance(n.ops[0], (ast.In, ast.NotIn)) and pred(n.left):
+                return True
+            if isinstance(n, ast.Call) and isinstance(n.func, ast.Attribute) and n.func.attr in ('add', 'setdefault') and n.args and pred(n.args[0]):
+                return True
+            if isinstance(n, ast.Subscript) and isinstance(n.ctx, ast.Store) and pred(n.slice):
+                return True
+            if isinstance(n, ast.DictComp) and pred(n.key):
+                return True
+            if isinstance(n, ast.SetComp) and pred(n.elt):
+                return True
+        return False
+    keyed_by_id = keyed(lambda e: isinstance(e, ast.Attribute) and e.attr == 'id' and isinstance(e.value, ast.Name))
+    keyed_by_obj = keyed(lambda e: match("id($t)", e) is not None)
     if keyed_by_id:
         o.refute(u, u.node, '_unique_tasks', "transitive dependencies are de-duplicated by task id: a task that shares its id with another "
                                             "task of the chain disappears from all_predecessors/all_successors and the cycle guard misses it")
@@ -636,25 +812,60 @@ def mirror_dep(ctx, o, name, mine, other):
         o.refute(f, st, st, "the argument list object itself is stored (aliasing the caller's list)")
     else:
         o.refute(f, st, st, f"the own {name} list becomes `{src(vx)[:60]}`, not exactly the given tasks")
+    s_ = f.self_name
+
+    def xcalls(meth):
+        """[(call, loop variable ast)] of `v.<other>.meth(self)` after expanding alias locals"""
+        out = []
+        for c in facts.calls_named(f, meth):
+            m = match(f"$v.{other}.{meth}({s_})", ex.expand(c, cfg.node_containing(c)))
+            if m:
+                out.append((c, m['v']))
+        return out
+
+    def loop_conds(fo, c):
+        out = []
+        for t, p in cfg.conditions(cfg.node_containing(c)):
+            tn = cfg.node_containing(t)
+            if tn is not None and cfg.dominates(cfg.node_of(fo), tn):
+                out += facts.split_conj(ex.expand(t, tn), p)
+        return out
+
+    def absent(meth, what, key):
+        """nothing matched: a violation only when the setter visibly does no such thing at all (closed world)"""
+        wrong = [c for c in facts.calls_named(f, meth) if match(f"$v.{mine}.{meth}({s_})", ex.expand(c, cfg.node_containing(c)))]
+        if wrong:
+            o.refute(f, wrong[0], wrong[0], f"self is {what} the {unmangle(mine)} list of the elements instead of their {unmangle(other)} list: "
+                                            f"the mirror side of the link is not maintained")
+            return
+        helpers = [t.qual for ci in ctx.cg.calls_in(f) for t in ci.targets
+                   if t is not None and ci.kind == 'call' and t.name.startswith('_') and t.name not in ('_to_list', '_check_no_nones_in_list')
+                   and t.kind not in ('getter', 'setter')]
+        if facts.calls_named(f, meth) or helpers:
+            o.undecided(f, f.node, key, f"no `v.{unmangle(other)}.{meth}(self)` recognised (other {meth}() calls / helpers present: "
+                                        f"{', '.join(sorted(set(helpers))[:3])})")
+        else:
+            o.refute(f, f.node, key, f"self is never {what} the {unmangle(other)} list of the {'old' if meth == 'remove' else 'new'} {name}")
+
     # (a) removal from the mirror list of old elements, before the store
-    rem = [c for c in facts.calls_named(f, 'remove') if match(f"$v.{other}.remove({f.self_name})", c)]
     done_a = False
-    for c in rem:
+    for c, v in xcalls('remove'):
         fo = _for_of(f, c)
-        v = match(f"$v.{other}.remove({f.self_name})", c)['v']
         if fo is None or not (isinstance(fo.target, ast.Name) and isinstance(v, ast.Name) and fo.target.id == v.id):
             o.undecided(f, c, c, "mirror removal outside a loop over the old list")
             continue
         it = ex.expand(fo.iter, cfg.node_of(fo))
-        if not match(f"{f.self_name}.{mine}", it):
+        mm = match("list($x)", it) or match("[$y for $y in $x]", it) or match("$x.copy()", it) or match("$x[:]", it) or match("tuple($x)", it)
+        if mm:
+            it = mm['x']
+        if not match(f"{s_}.{mine}", it):
             o.refute(f, fo, fo.iter, f"self is removed from the mirror lists of `{src(it)[:50]}`, not of every old element of self.{unmangle(mine)}")
             continue
         if not cfg.dominates(cfg.node_of(fo), stn):
             o.refute(f, fo, fo, "the old list is replaced before self was removed from the mirror lists of its elements")
             continue
-        conds = [(t, p) for t, p in facts.node_conditions(prog, f, c, ctx.typer, expand=False)
-                 if cfg.node_containing(t) is not None and cfg.dominates(cfg.node_of(fo), cfg.node_containing(t))]
-        bad = [(t, p) for t, p in conds if not (facts.cond_is(t, p, f"{f.self_name} in {v.id}.{other}", True) is not None or
+        conds = loop_conds(fo, c)
+        bad = [(t, p) for t, p in conds if not (facts.cond_is(t, p, f"{s_} in {v.id}.{other}", True) is not None or
                                                 (facts.cond_is(t, p, f"{v.id} in $new", False) is not None and
                                                  roles.is_arg_list(facts.cond_is(t, p, f"{v.id} in $new", False)['new'])))]
         if bad:
@@ -664,23 +875,20 @@ def mirror_dep(ctx, o, name, mine, other):
         done_a = True
         o.site(f, c, f"for v in self.{unmangle(mine)}: v.{unmangle(other)}.remove(self)")
     if not done_a and not o.refuted and not o.unknown:
-        o.refute(f, f.node, 'mirror removal', f"self is never removed from the {unmangle(other)} list of the old {name}")
+        absent('remove', 'removed from', 'mirror removal')
     # (c) insertion into the mirror list of new elements, after the store
-    app = [c for c in facts.calls_named(f, 'append') if match(f"$v.{other}.append({f.self_name})", c)]
     done_c = False
-    for c in app:
+    for c, v in xcalls('append'):
         fo = _for_of(f, c)
-        v = match(f"$v.{other}.append({f.self_name})", c)['v']
         if fo is None or not (isinstance(fo.target, ast.Name) and isinstance(v, ast.Name) and fo.target.id == v.id):
             o.undecided(f, c, c, "mirror insertion outside a loop over the new list")
             continue
         it = ex.expand(fo.iter, cfg.node_of(fo))
-        if not (roles.is_arg_list(it) or match(f"{f.self_name}.{mine}", it)):
+        if not (roles.is_arg_list(it) or match(f"{s_}.{mine}", it)):
             o.refute(f, fo, fo.iter, f"self is added to the mirror lists of `{src(it)[:50]}`, not of every element of the argument")
             continue
-        conds = [(t, p) for t, p in facts.node_conditions(prog, f, c, ctx.typer, expand=False)
-                 if cfg.node_containing(t) is not None and cfg.dominates(cfg.node_of(fo), cfg.node_containing(t))]
-        bad = [(t, p) for t, p in conds if facts.cond_is(t, p, f"{f.self_name} in {v.id}.{other}", False) is None]
+        conds = loop_conds(fo, c)
+        bad = [(t, p) for t, p in conds if facts.cond_is(t, p, f"{s_} in {v.id}.{other}", False) is None]
         if bad:
             o.refute(f, c, c, "the mirror link of a new element is only added when " + ', '.join(facts.cond_texts(bad)))
             continue
@@ -690,7 +898,7 @@ def mirror_dep(ctx, o, name, mine, other):
         done_c = True
         o.site(f, c, f"for v in value: v.{unmangle(other)}.append(self) if absent")
     if not done_c and not o.refuted and not o.unknown:
-        o.refute(f, f.node, 'mirror insertion', f"self is never added to the {unmangle(other)} list of the new {name}")
+        absent('append', 'added to', 'mirror insertion')
 
 
 def _for_of(f, node):
@@ -710,7 +918,7 @@ def mirror_parent(ctx, o):
 
     def xcalls(name):
         """[(original call, expanded call)]"""
-        return [(c, ex.expand(c)) for c in facts.calls_named(f, name)]
+        return [(c, T.expand_call(prog, f, ctx.typer, c)) for c in facts.calls_named(f, name)]
 
     def xconds(node):
         out = []
@@ -785,6 +993,8 @@ def mirror_parent(ctx, o):
         else:
             o.refute(f, reroot[0], 're-rooting condition', "re-rooting is not limited to `parent is None` on a member task")
         o.site(f, none_stores[0][0], "detached task: parent = None")
+    elif any(isinstance(n, ast.Attribute) and n.attr in ('_root', 'roots', '_WBS__root') for n in ast.walk(f.node)) and none_stores:
+        o.undecided(f, f.node, 're-rooting', "the WBS root task is used in a form the rule does not recognise")
     else:
         o.refute(f, f.node, 're-rooting', "parent = None does not re-root a member task under the WBS root task / reset a detached task")
 
@@ -952,47 +1162,95 @@ def facades(ctx, o):
             o.site(f, c, "remove(x) ... insert(_, x) on every path")
     # sort
     f = prog.func('task._ChildrenList.sort')
+    cfg = cfg_of(f)
+    ex = Expander(prog, f, ctx.typer, inline=True)
     st = [(a, None, b) for a, b, c in T.list_replacements(f)]
-    if not st:
-        o.refute(f, f.node, 'sort', "sort never replaces the contents of the child list")
+    inplace = [c for c in facts.calls_named(f, 'sort') + facts.calls_named(f, 'reverse')
+               if match("self._list", ex.expand(c.func.value, cfg.node_containing(c)))]
+    for c in inplace:
+        o.site(f, c, f"self._list.{c.func.attr}(..) permutes the shared list in place")
+    if not st and not inplace:
+        o.undecided(f, f.node, 'sort', "sort neither replaces the contents of the child list nor sorts it in place")
+    st2 = []
     for s_, tgt, val in st:
-        if isinstance(val, ast.Call) and isinstance(val.func, ast.Name) and val.func.id == 'sorted' and val.args and match("self._list", val.args[0]):
-            o.site(f, s_, "self._list = sorted(self._list, ...)")
+        # a local with one plain definition per branch: every definition is judged
+        ds = flow_of(f).reaching(val.id, cfg.node_of(s_)) if isinstance(val, ast.Name) else []
+        if len(ds) > 1 and all(d.kind == 'assign' and d.value is not None and d.node is not None for d in ds):
+            st2 += [(s_, d.node, d.value) for d in ds]
         else:
-            o.refute(f, s_, s_, f"sort replaces the child list by `{src(val)[:60]}`, which is not a permutation of it by construction")
+            st2.append((s_, cfg.node_of(s_), val))
+    for s_, at_, val in st2:
+        vx = ex.expand(val, at_)
+        m = match("list($x)", vx) or match("[$y for $y in $x]", vx)
+        if m:
+            vx = m['x']
+        if isinstance(vx, ast.Call) and isinstance(vx.func, ast.Name) and vx.func.id in ('sorted', 'reversed') and vx.args:
+            arg = vx.args[0]
+            m = match("list($x)", arg) or match("$x.copy()", arg) or match("$x[:]", arg) or match("[$y for $y in $x]", arg)
+            if m:
+                arg = m['x']
+            if match("self._list", arg) or match("self", arg):
+                o.site(f, s_, "self._list = sorted(self._list, ...)")
+            else:
+                o.refute(f, s_, s_, f"sort replaces the child list by `{src(vx)[:60]}`: sorted() of something else than the whole child list "
+                                    f"is not a permutation of it")
+        else:
+            o.undecided(f, s_, s_, f"sort replaces the child list by `{src(vx)[:60]}`: not recognised as a permutation of it")
     _published(ctx, o, f)
     # reorder
     f = prog.func('task._ChildrenList.reorder')
     st = [(a, None, b) for a, b, c in T.list_replacements(f)]
     fl = flow_of(f)
+    cfg = cfg_of(f)
     if len(st) != 1:
-        o.refute(f, f.node, 'reorder', "reorder does not replace the list exactly once")
+        o.undecided(f, f.node, 'reorder', "reorder does not replace the list exactly once")
     else:
         s_, tgt, val = st[0]
+        val = _alias(f, val, cfg.node_of(s_))
         m = match("$a + $b", val)
         ok = False
-        if m and isinstance(m['a'], ast.Name) and isinstance(m['b'], ast.Name):
-            a, b = m['a'].id, m['b'].id
-            bdefs = [d for d in fl.defs_of(b) if d.kind == 'assign']
-            copy_ok = len(bdefs) == 1 and (match("self._list.copy()", bdefs[0].value) or match("list(self._list)", bdefs[0].value)
-                                           or match("self._list[:]", bdefs[0].value) or match("[$x for $x in self._list]", bdefs[0].value))
-            live = len(bdefs) == 1 and match("self._list", bdefs[0].value)
+        if m and isinstance(m['a'], ast.Name):
+            a = m['a'].id
+            bx = _alias(f, m['b'], cfg.node_of(s_))
             apps = [c for c in facts.calls_named(f, 'append') if match(f"{a}.append($x)", c)]
-            rems = [c for c in facts.calls_named(f, 'remove') if match(f"{b}.remove($x)", c)]
-            if live:
-                o.refute(f, bdefs[0].stmt, bdefs[0].stmt, "reorder removes the picked tasks from the LIVE child list: a failure half way leaves them dropped")
-            elif copy_ok and len(apps) == 1 and len(rems) == 1 and same(match(f"{a}.append($x)", apps[0])['x'], match(f"{b}.remove($x)", rems[0])['x']) \
-                    and _for_of(f, apps[0]) is _for_of(f, rems[0]) and _for_of(f, apps[0]) is not None:
+            if match("self._list", bx):
+                o.refute(f, s_, s_, "reorder removes the picked tasks from the LIVE child list: a failure half way leaves them dropped")
+            elif isinstance(bx, ast.Name):
+                b = bx.id
+                bdefs = [d for d in fl.defs_of(b) if d.kind == 'assign']
+                copy_ok = len(bdefs) == 1 and (match("self._list.copy()", bdefs[0].value) or match("list(self._list)", bdefs[0].value)
+                                               or match("self._list[:]", bdefs[0].value) or match("[$x for $x in self._list]", bdefs[0].value))
+                rems = [c for c in facts.calls_named(f, 'remove') if match(f"{b}.remove($x)", c)]
+                if len(bdefs) == 1 and match("self._list", bdefs[0].value) and rems:
+                    o.refute(f, bdefs[0].stmt, bdefs[0].stmt, "reorder removes the picked tasks from the LIVE child list: a failure half way "
+                                                              "leaves them dropped")
+                    ok = True
+                if copy_ok and len(apps) == 1 and len(rems) == 1 and \
+                        same(match(f"{a}.append($x)", apps[0])['x'], match(f"{b}.remove($x)", rems[0])['x']) \
+                        and _for_of(f, apps[0]) is _for_of(f, rems[0]) and _for_of(f, apps[0]) is not None:
+                    ok = True
+                    o.site(f, s_, "picked + remainder: one remove from the copy per picked element")
+                elif copy_ok and not rems:
+                    o.refute(f, s_, s_, f"reorder rebuilds the list as `{src(val)[:70]}` where `{b}` is a full copy of the child list: the picked "
+                                        f"tasks are listed twice")
+                    ok = True
+            elif facts.comp_parts(bx) and match("self._list", facts.comp_parts(bx)[2]) or facts.comp_parts(bx) and match("self", facts.comp_parts(bx)[2]):
+                # remainder = the children that were not picked, decided by a membership test: sound only when no task is picked twice
+                dup_guard = any(g for g in facts.guards_of(prog, f, ctx.typer, inline=False)
+                                if any('set(' in src(t) and 'len(' in src(t) for t, p in g.conds))
                 ok = True
-                o.site(f, s_, "picked + remainder: one remove from the copy per picked element")
+                if dup_guard:
+                    o.site(f, s_, "reorder rejects duplicate ids before rebuilding the list")
+                else:
+                    o.refute(f, s_, s_, f"reorder rebuilds the list as `{src(val)[:70]}` without removing each picked task from the remainder and "
+                                        f"without rejecting repeated ids: a child can be listed twice (or dropped)")
         if not ok and not o.refuted:
             dup_guard = any(g for g in facts.guards_of(prog, f, ctx.typer, inline=False)
                             if any('set(' in src(t) and 'len(' in src(t) for t, p in g.conds))
             if dup_guard:
                 o.site(f, s_, "reorder rejects duplicate ids before rebuilding the list")
             else:
-                o.refute(f, s_, s_, f"reorder rebuilds the list as `{src(val)[:70]}` without removing each picked task from the remainder and "
-                                    f"without rejecting repeated ids: a child can be listed twice (or dropped)")
+                o.undecided(f, s_, s_, f"reorder rebuilds the list as `{src(val)[:70]}`: not recognised as picked + (copy minus picked)")
     _published(ctx, o, f)
     _published(ctx, o, prog.func('task._ChildrenList.move'))
     # link facades never mutate _list in place
@@ -1020,6 +1278,23 @@ def move_anchor(ctx, o, eff):
             continue        # a moved task that is not in the list fails in remove(), before anything of it was changed
         T.require(ctx, o, f, f"move(): {label} (else index(anchor) fails after remove(task) and the task is lost from the child list)",
                   R, writes, eff, needs_elem)
+
+
+def _alias(f, e, at):
+    """follow `x = <expr>` for a local x that has this one plain definition (a hoisted sub-expression); mutated containers are kept"""
+    fl = flow_of(f)
+    for _ in range(6):
+        if not isinstance(e, ast.Name) or at is None:
+            return e
+        d = fl.unique_def(e.id, at)
+        if d is None or d.kind != 'assign' or d.value is None or d.node is None or d.node is at:
+            return e
+        mutated = any(isinstance(n, ast.Call) and isinstance(n.func, ast.Attribute) and isinstance(n.func.value, ast.Name) and
+                      n.func.value.id == e.id and n.func.attr in _LIST_MUT for n in walk_no_nested(f.node))
+        if mutated:
+            return e
+        e, at = d.value, d.node
+    return e
 
 
 def _published(ctx, o, f):
